@@ -1,5 +1,6 @@
 (* Scratch: C15 — Render over an arbitrary table of render functions; a missing entry anywhere makes it fail *)
 Require Import Parser ParserShape Render.
+Require Export Driver.
 From Coq Require Import List Ascii String ZArith Bool Lia.
 Import ListNotations.
 Open Scope string_scope.
@@ -7,72 +8,11 @@ Open Scope string_scope.
 Section D.
 Variable o2 : oracle2.
 Variable fns : operator -> option (string -> string -> out sres).
-
-Fixpoint render_with (e : expr) {struct e} : out sres :=
-  match e with
-  | E l op r _ _ =>
-    do ls <- serialize_with l;
-    match ls with
-    | (_, Some er) => Ret ("", Some er)
-    | (lf, None) =>
-      do rs_ <- serialize_with r;
-      match rs_ with
-      | (_, Some er) => Ret ("", Some er)
-      | (rt, None) =>
-        let lf := wrap_if (negb (no_wrap_op op) && negb (is_simple l)) lf in
-        let rt := wrap_if (negb (no_wrap_op op) && negb (is_simple r)) rt in
-        match fns op with
-        | None => Ret ("", Some "unable to render operator")
-        | Some fn => fn lf rt
-        end
-      end
-    end
-  end
-with serialize_with (v : value) {struct v} : out sres :=
-  match v with
-  | VNil => Ret ("", None)
-  | VExp e => render_with e
-  | VList l =>
-      (fix each (l : list expr) (acc : list string) : out sres :=
-         match l with
-         | [] => Ret (join ", " (rev acc), None)
-         | x :: rest =>
-             do s <- render_with x;
-             match s with
-             | (s', Some er) => Ret (s', Some er)
-             | (s', None) => each rest (s' :: acc)
-             end
-         end) l []
-  | VBound mn mx incl =>
-      do a <- serialize_with mn;
-      match a with
-      | (_, Some er) => Ret ("", Some er)
-      | (smin, None) =>
-        do b <- serialize_with mx;
-        match b with
-        | (_, Some er) => Ret ("", Some er)
-        | (smax, None) => Ret ((if incl then "[" ++ smin ++ ", " ++ smax ++ "]" else "(" ++ smin ++ ", " ++ smax ++ ")"), None)
-        end
-      end
-  | VCol c => Ret (ser_column c)
-  | VStr s => Ret ("'" ++ replace_char "'"%char "''" s ++ "'", None)
-  | VInt z => Ret (z_to_string z, None)
-  | VFloat f => Ret (fmt_v o2 f, None)
-  | VBool b => Ret (bool_str b, None)
-  end.
-
-(* some node reachable through Left / Right / list elements / range bounds has no render function *)
-Fixpoint missing (e : expr) {struct e} : bool :=
-  match e with
-  | E l op r _ _ => (match fns op with None => true | Some _ => false end) || vmissing l || vmissing r
-  end
-with vmissing (v : value) {struct v} : bool :=
-  match v with
-  | VExp e => missing e
-  | VList l => (fix any (l : list expr) : bool := match l with [] => false | x :: r => missing x || any r end) l
-  | VBound a b _ => vmissing a || vmissing b
-  | _ => false
-  end.
+Notation render_with := (Driver.render_with o2 fns).
+Notation serialize_with := (Driver.serialize_with o2 fns).
+Notation missing := (Driver.missing fns).
+Notation vmissing := (Driver.vmissing fns).
+Notation ser_list_with := (Driver.ser_list_with o2 fns).
 
 Definition succeeds (x : out sres) : Prop := exists s, x = Ret (s, None).
 
@@ -106,10 +46,10 @@ Proof.
   { intros v Hs Hm Hsucc. destruct v; cbn in Hm; try discriminate.
     + (* VExp *) cbn in Hs. cbn [serialize_with] in Hsucc. apply (HE e); [lia | exact Hm | exact Hsucc].
     + (* VList *)
-      cbn [serialize_with] in Hsucc. cbn in Hs.
+      rewrite serialize_with_list in Hsucc. cbn in Hs.
       revert Hsucc. generalize (@nil string).
       induction l as [|x xs IHl]; intros acc Hsucc; [discriminate|].
-      apply orb_true_iff in Hm. cbn in Hs.
+      apply orb_true_iff in Hm. cbn in Hs. cbn [ser_list_with] in Hsucc.
       apply bind_succeeds in Hsucc. destruct Hsucc as ([s' se] & Ex & Hsucc).
       destruct se as [er|]; [destruct Hsucc as [s Hs']; discriminate|].
       destruct Hm as [Hm|Hm].
@@ -136,15 +76,3 @@ Qed.
 End D.
 
 (* the postgres table has no entry for Fuzzy and Boost: every tree containing one of them fails to render *)
-Fixpoint has_fb (e : expr) {struct e} : bool :=
-  match e with
-  | E l op r _ _ => (match op with Fuzzy | Boost => true | _ => false end) || vhas_fb l || vhas_fb r
-  end
-with vhas_fb (v : value) {struct v} : bool :=
-  match v with
-  | VExp e => has_fb e
-  | VList l => (fix any (l : list expr) : bool := match l with [] => false | x :: r => has_fb x || any r end) l
-  | VBound a b _ => vhas_fb a || vhas_fb b
-  | _ => false
-  end.
-
